@@ -191,6 +191,11 @@ def generate(tier, seed):
                 add("ymwl_days y=%d m=%d w=%d" % (y, m, w), "ymwl_days")
                 for i in range(1, 6):
                     add("ymw_days y=%d m=%d w=%d i=%d" % (y, m, w, i), "ymw_days")
+                # index 0, 6 and 7 are values a weekday_indexed holds ([time.cal.wdidx.members]: specified for [0, 7]); ok() is
+                # false for them and the sys_days conversion is still defined ((index - 1) * 7 days after the first weekday)
+                if y % 4 == 0 or thorough:
+                    for i in (0, 6, 7):
+                        add("ymw_days y=%d m=%d w=%d i=%d" % (y, m, w, i), "ymw_days")
     for y in (-32767, -32000, -401, -1, 0, 1, 1999, 2000, 2024, 32000, 32767):
         for k in (-64000, -500, -5, -1, 0, 1, 4, 5, 100, 400, 64000):
             if -32767 <= y + k <= 32767:
